@@ -31,13 +31,20 @@ CHECKS = {
             'exhaustive over single failures per generated case, sampled over cases and multi-failure sets'),
 }
 
+CHECKS.update({
+    'C17': ('exploration', 'from_textfile over a fake append-only file and filenames over a fake directory on the simulated loop: text over an alphabet containing the delimiter characters, cut into random chunks appended at random virtual times relative to start() and the polls, optional short reads, slow sinks, from_end, multi-character and self-overlapping delimiters, scenario-chosen listing orders; emitted records must be exactly text.split(delimiter)[:-1] each with its delimiter, in order, once, the unterminated tail withheld; every path exactly once, sorted per poll', '4 (C17)',
+            'the file object and glob are fakes (open() and the real filesystem are a stub boundary); a chunk becomes visible atomically'),
+    'C18': ('exploration', 'start()/stop() histories on from_iterable (one-shot iterator and list), from_periodic, from_textfile, filenames with slow sinks, calls placed before the scheduled run began, during the sleep, during a backpressured emit, at the same instant, plus redundant calls: at most one emission in flight and one cycle per poll interval (one polling loop), no new cycle after stop() before the next start(), differential idempotence (the history without the redundant calls gives the same observable trace), from_iterable emits exactly its items in order and takes the next only after downstream finished', '4 (C18)',
+            'a polling cycle begins with the read / listing / callback / next() the fakes log; from_kafka* and socket sources are not part of this check'),
+})
+
 NOT_APPLICABLE = {
     'C06': 'pure function of the batch sequence and the expression tree: no schedule, clock, I/O, peer or fault occurs in the statement or the anchored code, so simulation would only be input generation in disguise (DESIGN 5)',
     'C07': 'same as C06: window(value=T) reads timestamps from the data index, never a clock (DESIGN 5)',
     'C11': 'same as C06: the split into batches is an input, not a schedule (DESIGN 5)',
 }
 
-PENDING = {k: 'check under construction in this session (will be claimed once built)' for k in ['C09', 'C12', 'C15', 'C17', 'C18', 'C19', 'C20']}
+PENDING = {k: 'check under construction in this session (will be claimed once built)' for k in ['C09', 'C12', 'C15', 'C19', 'C20']}
 
 
 def main():
